@@ -43,6 +43,7 @@ CALLS = {
     'qstr::match/1': ('fn', 'qstr_regexMatch'),
     'qrematch::hasMatch/0': ('expr', '{0} != 0'),
     # QXmppUtils JID helpers as uninterpreted functions with their idempotence axioms (qtmodel/opaque.h)
+    'qstr::compare/2': ('fn', 'qstr_compare_cs'),
     'fn:jidToBareJid/1': ('fn', 'qstr_jidToBareJid'),
     'fn:jidToResource/1': ('fn', 'qstr_jidToResource'),
     'fn:jidToDomain/1': ('fn', 'qstr_jidToDomain'),
